@@ -26,7 +26,7 @@ ASSUMPTIONS = ["the expansion is the one shown on website/docs/task-types/run-ex
                "ill-typed chain_experiments is not generated (documented Boolean, implemented by truthiness)"]
 ESSENTIAL = ["chained>=3", "shared_deps", "dup_instance_names", "instance_equals_group_name", "experiments_absent",
              "generator_experiments", "ill_typed_field", "both_accepted", "both_rejected", "instance_clashes_other_task",
-             "failure_in_chain", "non_instance_element", "same_group_in_two_packages"]
+             "failure_in_chain", "non_instance_element", "same_group_in_two_packages", "instance_defaults_filled_in_afterwards"]
 TECHNIQUE = "differential / translation validation: sugar vs. documented expansion, Hypothesis-generated definitions, identical virtual-kernel schedules"
 LEVEL_TEXT = ("Each generated group definition is a 'program'; its documented expansion is the reference translation. Loaded graphs and "
               "complete execution traces of both are compared. Random search over definitions, not exhaustive.")
@@ -66,6 +66,13 @@ def _case(draw, tier):
     exp_form = draw(st.sampled_from(["list"] * 10 + ["tuple", "tuple", "gen", "gen", "absent", "nonlist_elem", "none_elem"]))
     if exp_form == "absent":
         insts = []   # the documented default: experiments=[]
+    # COND files are Python: an instance built with the default args/options is filled in afterwards
+    # (inst.options["seed"] = 7, inst.args.append("extra")); the other instances keep their (empty) defaults
+    mutate = None
+    cands = [i for i, x in enumerate(insts) if "ill" not in x and (x["args"] is None or x["options"] is None)]
+    if len(insts) >= 2 and cands and exp_form in ("list", "tuple", "gen") and draw(st.sampled_from([False, False, False, True])):
+        j = draw(st.sampled_from(cands))
+        mutate = {"j": j, "args": insts[j]["args"] is None, "options": insts[j]["options"] is None}
     consumer = draw(st.sampled_from(["none", "group", "instance", "both"]))
     target = draw(st.sampled_from(["group", "group", "consumer" if consumer != "none" else "group", "instance" if insts else "group"]))
     pkg = draw(st.sampled_from(["", "p"]))
@@ -80,7 +87,7 @@ def _case(draw, tier):
             "outcomes": outcomes, "tape": tape, "again": draw(st.sampled_from([False, False, True])),
             "second_run": draw(st.sampled_from([False, False, True])),
             # the same group (same instance names) defined once more in a sibling package, both loaded by one invocation
-            "twin": draw(st.sampled_from([False, False, False, True]))}
+            "twin": draw(st.sampled_from([False, False, False, True])), "mutate": mutate}
 
 
 def strategy(tier):
@@ -114,6 +121,16 @@ def sugar_src(case):
     elif form == "none_elem":
         insts.append("None")
     parts = ["name=%r" % case["gname"], "run='./run.sh'"]
+    pre = ""
+    m = case.get("mutate")
+    if m:
+        pre = "_insts = [%s]\n" % ", ".join(insts)
+        if m["options"]:
+            pre += "_insts[%d].options['seed'] = 7\n" % m["j"]
+        if m["args"]:
+            pre += "_insts[%d].args.append('extra')\n" % m["j"]
+        parts.append({"list": "experiments=_insts", "tuple": "experiments=tuple(_insts)", "gen": "experiments=(x for x in _insts)"}[form])
+        form = "done"
     if form in ("list", "nonlist_elem", "none_elem"):
         parts.append("experiments=[%s]" % ", ".join(insts))
     elif form == "tuple":
@@ -124,7 +141,7 @@ def sugar_src(case):
         parts.append("chain_experiments=%s" % case["chain"])
     if case["deps"] is not None:
         parts.append("deps=%s" % case["deps"])
-    return "run_experiment_group(%s)\n" % ", ".join(parts)
+    return pre + "run_experiment_group(%s)\n" % ", ".join(parts)
 
 
 def expansion_src(case):
@@ -132,7 +149,14 @@ def expansion_src(case):
     out = []
     prev = None
     deps_src = case["deps"] if case["deps"] is not None else "[]"
-    for inst in case["insts"]:
+    m = case.get("mutate")
+    for k, inst in enumerate(case["insts"]):
+        if m and k == m["j"]:
+            inst = dict(inst)
+            if m["options"]:
+                inst["options"] = "{'seed': 7}"
+            if m["args"]:
+                inst["args"] = "['extra']"
         parts = []
         ill = inst.get("ill", "")
         parts.append(ill if ill.startswith("name=") else "name=%r" % inst["name"])
@@ -253,6 +277,8 @@ def run_case(case):
         labels = set()
         if case.get("twin"):
             labels.add("same_group_in_two_packages")
+        if case.get("mutate"):
+            labels.add("instance_defaults_filled_in_afterwards")
         v = []
         n = len(case["insts"])
         names = [i["name"] for i in case["insts"]]
